@@ -8,7 +8,7 @@ TRACE_MODULE = "C18_Trace"
 EXHAUSTIVE = True
 RULE = ("a scenario is one operation history (a behaviour of the TLA+ heap / forest model emitted by TLC: every history up to "
         "a bounded length over small domains by breadth-first search, plus random-simulation behaviours over 7 items / 8 values) "
-        "replayed call by call on one real PriorityQueue or ComponentFinder; non-trivial = a queue history with >= 2 pops "
+        "replayed call by call on one real PriorityQueue or ComponentFinder (scores handed over as int, tuple, list, iterator, generator or map object - every iterable yielding ints); non-trivial = a queue history with >= 2 pops "
         "and a change_score of a queued item, or a forest history with >= 2 merges")
 ASSUMPTIONS = [
     "TLC; the abstract models PQueue.tla / UnionFind.tla are the reading of the statement (ties may pop in any order)",
@@ -47,14 +47,14 @@ def scenarios(ctx):
                         subst={"Scores": "S3"}, constraint="Bound", invariants=["Emit"])
     hs, r = tlc.behaviours("MC_PQHeap", cfg)
     ctx.notes["pq_bfs_histories"] = len(hs)
-    scs += [{"kind": "pq", "ops": h, "tuple": i % 2 == 1} for i, h in enumerate(hs)]
+    scs += [{"kind": "pq", "ops": h, "tuple": i % 2 == 1, "forms": i % 4 == 2} for i, h in enumerate(hs)]
     # ---- priority queue: random simulation over deep heaps ----
     for k, (items, depth, num) in enumerate([(7, 30, 300 if q else 3000), (5, 16, 300 if q else 3000)]):
         cfg = tlc.write_cfg(os.path.join(ctx.workdir, f"pqsim{k}.cfg"), spec="MCSpec",
                             consts={"Items": "{" + ",".join(map(str, range(1, items + 1))) + "}", "Depth": depth, "MaxLen": items, "PopWeight": 12},
                             subst={"Scores": "S6"}, constraint="Bound", invariants=["Emit"])
         hs, r = tlc.behaviours("MC_PQHeap", cfg, simulate=f"num={num}", depth=depth + 1, seed=seed + k)
-        scs += [{"kind": "pq", "ops": h, "tuple": i % 3 == 1} for i, h in enumerate(hs)]
+        scs += [{"kind": "pq", "ops": h, "tuple": i % 3 == 1, "forms": i % 3 == 2} for i, h in enumerate(hs)]
         ctx.notes[f"pq_sim_histories_{items}items"] = len(hs)
     # ---- component finder: all histories (BFS) ----
     cfg = tlc.write_cfg(os.path.join(ctx.workdir, "ufbfs.cfg"), spec="MCSpec",
@@ -90,8 +90,25 @@ def _drive_pq(sc):
         e["look"] = [[i, _norm(pq.get_score_by_item(i))] for i in universe]
         return e
 
+    cnt = [0]
+
     def arg(s):
         # scalar scores are given as plain ints unless the scenario asks for tuples throughout
+        if sc.get("forms"):
+            # the documented score type is "int, or an iterable object yielding ints": every kind of iterable, one-shot ones included
+            cnt[0] += 1
+            k = cnt[0] % 6
+            if k == 0 and len(s) == 1:
+                return s[0]
+            if k == 1:
+                return list(s)
+            if k == 2:
+                return iter(tuple(s))
+            if k == 3:
+                return (x for x in s)
+            if k == 4:
+                return map(int, s)
+            return tuple(s)
         if len(s) == 1 and not sc.get("tuple"):
             return s[0]
         return tuple(s)
